@@ -24,19 +24,41 @@ struct Ctx {
     scr: Scratch,
     rng: Rng,
     deep: bool,
+    /// an 8128-entry metric file (Metric::save names it metric.flop), used as a longer decoy
+    metric_flop: Vec<u8>,
 }
 
-/// prefix lengths to try for a file of `len` bytes with rows of `row` bytes after a 19-byte header
-fn cuts(c: &mut Ctx, len: usize, row: usize) -> Vec<usize> {
+/// prefix lengths to try for a file of `len` bytes with rows of `row` bytes after a 19-byte header:
+/// `.0` = every cut given to the real loader and judged by the oracle, `.1` = the subset also sent
+/// to the Lean model (all of them unless the file is large)
+fn cuts(c: &mut Ctx, len: usize, row: usize) -> (Vec<usize>, Vec<usize>) {
     let mut ks: Vec<usize> = vec![];
     if len <= 420 {
         ks.extend(0..=len);
-        return ks;
+        return (ks.clone(), ks);
     }
-    ks.extend(0..=40.min(len));
+    let mut must: Vec<usize> = vec![]; // always sent to the model too
+    must.extend(0..=40.min(len));
     let nrows = (len - 21) / row;
     for j in 0..=nrows {
         ks.push(19 + j * row); // row boundaries: the cuts the pinned loaders did not notice
+        // block-size multiples: loaders that read rows in blocks of 2^i rows
+        if j % 256 == 0 || (j.is_power_of_two() && j >= 16) {
+            must.extend([19 + j * row, (19 + j * row + 1).min(len), (19 + j * row).saturating_sub(1)]);
+        }
+    }
+    // I/O buffer multiples (8 KiB BufReader default, 64 KiB, 1 MiB): the cut right before / at / after
+    for b in [8192usize, 65536, 1 << 20] {
+        let mut m = b;
+        while m <= len + 2 {
+            for d in [-2i64, -1, 0, 1, 2] {
+                let k = m as i64 + d;
+                if k >= 0 && (k as usize) <= len {
+                    must.push(k as usize);
+                }
+            }
+            m += b;
+        }
     }
     let extra = if c.deep { 2000 } else { 250 };
     for _ in 0..extra {
@@ -49,23 +71,48 @@ fn cuts(c: &mut Ctx, len: usize, row: usize) -> Vec<usize> {
         };
         ks.push((19 + j * row + off).min(len));
     }
-    ks.extend(len.saturating_sub(80)..=len);
+    must.extend(len.saturating_sub(80)..=len);
+    ks.extend(must.iter().copied());
     ks.sort();
     ks.dedup();
-    ks
+    // the model evaluates each prefix from scratch (quadratic map insertion): sample for large files
+    let budget = if c.deep { 1500 } else { 500 };
+    let mut model: Vec<usize> = if ks.len() <= budget {
+        ks.clone()
+    } else {
+        let mut m = must.clone();
+        for _ in 0..budget / 2 {
+            m.push(ks[c.rng.below(ks.len() as u64) as usize]);
+        }
+        m
+    };
+    model.sort();
+    model.dedup();
+    (ks, model)
 }
 
 /// run all cuts of one saved file; `load` returns Some(Some(n)) = loaded, content differs, n rows;
 /// Some(None) = loaded and equal to the complete content; None = panic
 fn run_cuts(
     c: &mut Ctx, table: &str, aux: u64, rows: &[Vec<u64>], name: &str, full: &[u8], rowsize: usize,
-    load: &mut dyn FnMut() -> Option<Option<usize>>, river: bool,
+    load: &mut dyn FnMut() -> Option<Option<usize>>, river: bool, decoy: &mut dyn FnMut(usize) -> bool,
 ) {
-    let ks = cuts(c, full.len(), rowsize);
-    let op = format!("cuts {table} {aux} {} {} {} {}", rows.len(), flat(rows), ks.len(), ks.iter().map(|k| k.to_string()).collect::<Vec<_>>().join(" "));
-    let mut ans: Vec<String> = Vec::with_capacity(ks.len());
+    let (ks, model_ks) = cuts(c, full.len(), rowsize);
+    let in_model: std::collections::HashSet<usize> = model_ks.iter().copied().collect();
+    let op = format!("cuts {table} {aux} {} {} {} {}", rows.len(), flat(rows), model_ks.len(), model_ks.iter().map(|k| k.to_string()).collect::<Vec<_>>().join(" "));
+    let mut ans: Vec<String> = Vec::with_capacity(model_ks.len());
     let boundary = |k: usize| k >= 19 && k < full.len() - 1 && (k - 19) % rowsize == 0;
-    for &k in &ks {
+    let every = if full.len() <= 420 { 1 } else { 16 };
+    for (i, &k) in ks.iter().enumerate() {
+        // ambient state: this thread has just loaded a different, LONGER file of the same kind
+        // (alternately under the same name and under another street's name)
+        if i % every == 0 {
+            if decoy(i / every) {
+                c.run.count(&format!("{table} preceded by a load of a longer {} file", if (i / every) % 2 == 0 { "same-name" } else { "other-street (blueprint: same-name)" }));
+            } else {
+                c.run.fail("decoy-does-not-load", table, "a complete longer file loads", "panic");
+            }
+        }
         c.scr.write(name, &full[..k]);
         c.run.evaluations += 1;
         c.run.spec_checked += 1;
@@ -90,8 +137,12 @@ fn run_cuts(
         if !rows.is_empty() {
             c.run.distinct(&(table, rows, k));
         }
-        ans.push(tok);
+        if in_model.contains(&k) {
+            ans.push(tok);
+        }
     }
+    c.run.count_n(&format!("{table} cuts judged by the oracle"), ks.len() as u64);
+    c.run.count_n(&format!("{table} cuts also sent to the model"), model_ks.len() as u64);
     c.run.line(&op, &ans.join(" "));
 }
 
@@ -104,8 +155,16 @@ fn profile_case(c: &mut Ctx, rows: &[(Bucket, Edge, u32, u32)]) {
     let files = c.scr.files();
     assert!(files.len() == 1 && files[0].0 == "blueprint", "blueprint file");
     let full = files[0].1.clone();
+    // a different, longer blueprint
+    let extra = any_profile_rows(&mut c.rng, orig.len() + 9);
+    build_profile(&extra).save();
+    let dbytes = std::fs::read("pgcopy/blueprint").expect("decoy");
+    let mut decoy = |_: usize| {
+        std::fs::write("pgcopy/blueprint", &dbytes).expect("decoy");
+        catch(|| profile_load()).is_some()
+    };
     let mut load = || catch(|| profile_load()).map(|l| { let t = profile_typed(&l); if t == typed { None } else { Some(t.len()) } });
-    run_cuts(c, "blueprint", 0, &orig, "blueprint", &full, 66, &mut load, false);
+    run_cuts(c, "blueprint", 0, &orig, "blueprint", &full, 66, &mut load, false, &mut decoy);
 }
 fn metric_case(c: &mut Ctx, rows: &[(u64, u32)]) {
     let m = build_metric(rows);
@@ -118,8 +177,34 @@ fn metric_case(c: &mut Ctx, rows: &[(u64, u32)]) {
     let name = files[0].0.clone();
     let street = name.strip_prefix("metric.").and_then(street_of_suffix).expect("metric street");
     let full = files[0].1.clone();
+    // a different, longer metric under the same name, and the 8128-entry one (= metric.flop)
+    let n = orig.len() + 9;
+    let same: Vec<(u64, u32)> = {
+        let mut m = BTreeMap::new();
+        while m.len() < n || [8128usize, 10296, 14196].contains(&m.len()) {
+            m.insert(c.rng.next(), any_f32(&mut c.rng));
+        }
+        m.into_iter().collect()
+    };
+    c.scr.clean();
+    build_metric(&same).save();
+    let same_name = c.scr.files()[0].0.clone();
+    let same_street = same_name.strip_prefix("metric.").and_then(street_of_suffix).expect("street");
+    let same_bytes = c.scr.files()[0].1.clone();
+    let flop_bytes: Vec<u8> = c.metric_flop.clone();
+    c.scr.clean();
+    let use_flop = street != Street::Flop && full.len() < flop_bytes.len();
+    let mut decoy = |i: usize| {
+        if i % 2 == 1 && use_flop {
+            std::fs::write("pgcopy/metric.flop", &flop_bytes).expect("decoy");
+            catch(|| metric_load(Street::Flop)).is_some()
+        } else {
+            std::fs::write(format!("pgcopy/{same_name}"), &same_bytes).expect("decoy");
+            catch(move || metric_load(same_street)).is_some()
+        }
+    };
     let mut load = || catch(move || metric_load(street)).map(|l| { let t = metric_typed(&l); if t == typed { None } else { Some(t.len()) } });
-    run_cuts(c, "metric", 0, &orig, &name, &full, 22, &mut load, false);
+    run_cuts(c, "metric", 0, &orig, &name, &full, 22, &mut load, false, &mut decoy);
 }
 fn lookup_case(c: &mut Ctx, map: &BTreeMap<Isomorphism, Abstraction>) {
     let orig = lookup_rows(map);
@@ -130,8 +215,33 @@ fn lookup_case(c: &mut Ctx, map: &BTreeMap<Isomorphism, Abstraction>) {
     let name = files[0].0.clone();
     let street = name.strip_prefix("isomorphism.").and_then(street_of_suffix).expect("lookup street");
     let full = files[0].1.clone();
+    // different, longer lookups: same street, and another street (the order Layer::learn uses: turn, then flop)
+    let other = match street {
+        Street::Flop => Street::Turn,
+        Street::Turn => Street::Rive,
+        Street::Rive => Street::Turn,
+        Street::Pref => Street::Flop,
+    };
+    let mut dec: Vec<(Street, String, Vec<u8>)> = vec![];
+    for s in [if street == Street::Pref { Street::Flop } else { street }, other] {
+        let mut m = BTreeMap::new();
+        while m.len() < orig.len() + 9 {
+            m.insert(any_isomorphism(&mut c.rng, s), any_abstraction(&mut c.rng, None));
+        }
+        c.scr.clean();
+        Lookup::from(m).save();
+        let f = c.scr.files();
+        dec.push((s, f[0].0.clone(), f[0].1.clone()));
+    }
+    c.scr.clean();
+    let mut decoy = |i: usize| {
+        let (s, n, b) = &dec[i % 2];
+        let s = *s;
+        std::fs::write(format!("pgcopy/{n}"), b).expect("decoy");
+        catch(move || lookup_load(s)).is_some()
+    };
     let mut load = || catch(move || BTreeMap::from(lookup_load(street))).map(|l| if &l == map { None } else { Some(l.len()) });
-    run_cuts(c, "lookup", 0, &orig, &name, &full, 26, &mut load, false);
+    run_cuts(c, "lookup", 0, &orig, &name, &full, 26, &mut load, false, &mut decoy);
 }
 /// Decomp has no read accessor: what a load delivered is observed by saving it again
 fn decomp_case(c: &mut Ctx, map: BTreeMap<Abstraction, Histogram>) {
@@ -162,7 +272,25 @@ fn decomp_case(c: &mut Ctx, map: BTreeMap<Abstraction, Histogram>) {
             if Some(&again) == complete.as_ref() { None } else { Some((again.len().saturating_sub(21)) / 34) }
         })
     };
-    run_cuts(c, "transitions", mass, &orig, &name, &full, 34, &mut load, river);
+    // different, longer transition tables: same street and another street
+    let mut dec: Vec<(Street, String, Vec<u8>)> = vec![];
+    let s0 = if river { Street::Turn } else { street };
+    let s1 = if s0 == Street::Flop { Street::Turn } else { Street::Flop };
+    for s in [s0, s1] {
+        let m = any_decomp(&mut c.rng, s, orig.len() + 9, 64);
+        std::fs::remove_file(format!("pgcopy/transitions.{s}")).ok();
+        Decomp::from(m).save();
+        let n = format!("transitions.{s}");
+        let b = std::fs::read(format!("pgcopy/{n}")).expect("decoy");
+        dec.push((s, n, b));
+    }
+    let mut decoy = |i: usize| {
+        let (s, n, b) = &dec[i % 2];
+        let s = *s;
+        std::fs::write(format!("pgcopy/{n}"), b).expect("decoy");
+        catch(move || decomp_load(s)).is_some()
+    };
+    run_cuts(c, "transitions", mass, &orig, &name, &full, 34, &mut load, river, &mut decoy);
 }
 
 fn any_profile_rows(rng: &mut Rng, n: usize) -> Vec<(Bucket, Edge, u32, u32)> {
@@ -175,27 +303,6 @@ fn any_profile_rows(rng: &mut Rng, n: usize) -> Vec<(Bucket, Edge, u32, u32)> {
     }
     rows
 }
-fn any_decomp(rng: &mut Rng, street: Street, n: usize) -> BTreeMap<Abstraction, Histogram> {
-    let next = match street {
-        Street::Pref => Street::Flop,
-        Street::Flop => Street::Turn,
-        _ => Street::Rive,
-    };
-    let mut m = BTreeMap::new();
-    let mut total = 0;
-    while total < n {
-        let from = Abstraction::from((street, rng.below(4096) as usize));
-        let k = 1 + rng.below(6) as usize;
-        let support: Vec<Abstraction> = (0..k).map(|_| Abstraction::from((next, rng.below(128) as usize))).collect();
-        let draws = 1 + rng.below(40);
-        let v: Vec<Abstraction> = (0..draws).map(|_| support[rng.below(k as u64) as usize]).collect();
-        let h = Histogram::from(v);
-        total += h.n();
-        m.insert(from, h);
-    }
-    m
-}
-
 fn main() {
     let a = args();
     let out = std::fs::canonicalize(&a.out).unwrap_or_else(|_| {
@@ -208,11 +315,21 @@ fn main() {
     quiet_panics();
     let scr = Scratch::new(&out);
     let deep = a.thorough();
-    let mut c = Ctx { run, scr, rng, deep };
+    let mut c = Ctx { run, scr, rng, deep, metric_flop: vec![] };
+    {
+        let mut m = BTreeMap::new();
+        while m.len() < 8128 {
+            m.insert(c.rng.next(), any_f32(&mut c.rng));
+        }
+        let rows: Vec<(u64, u32)> = m.into_iter().collect();
+        build_metric(&rows).save();
+        c.metric_flop = std::fs::read("pgcopy/metric.flop").expect("metric.flop");
+        c.scr.clean();
+    }
     let nsmall = if deep { 60 } else { 30 };
-    let big = if deep { 3000 } else { 800 };
+    let big = if deep { 3000 } else { 1100 };
     c.run.rule = format!(
-        "files written by the real save() of all four table kinds (0,1,2,3 rows, {nsmall} random tables of up to 5 rows, one of ~60 and one of ~{big} rows per kind; transitions for preflop/flop/turn and the empty river file): for files up to 420 bytes EVERY prefix length 0..len, otherwise bytes 0..40, every row boundary, sampled offsets inside rows (first/second/last byte and random), the last 80 bytes, and the complete file; each prefix replaces the file and is loaded by the real load() under catch_unwind; a case = one (file, cut), non-trivial when the table has at least one row; distinct by (table content, cut)");
+        "files written by the real save() of all four table kinds (0,1,2,3 rows, {nsmall} random tables of up to 5 rows, one of ~60 and one of ~{big} rows per kind, a lookup and a transitions table of ~4200 rows (more than 1024 / 4096 rows); transitions for preflop/flop/turn and the empty river file): for files up to 420 bytes EVERY prefix length 0..len, otherwise bytes 0..40, every row boundary, sampled offsets inside rows (first/second/last byte and random), the last 80 bytes, cuts around row-block multiples (256·j and 2^i rows) and I/O-buffer multiples (8 KiB, 64 KiB, 1 MiB ± 2 bytes), and the complete file — all judged by the oracle, a sample of at most ~500 per large file also sent to the model; before the cuts (every cut for small files, every 16th otherwise) the same thread loads a different, LONGER complete file of the same kind, alternately under the same name and under another street's name, so that state left behind by an earlier load is in place; each prefix replaces the file and is loaded by the real load() under catch_unwind; a case = one (file, cut), non-trivial when the table has at least one row; distinct by (table content, cut)");
     c.run.exhaustive = false;
 
     for n in [0usize, 1, 2, 3] {
@@ -233,7 +350,7 @@ fn main() {
     decomp_case(&mut c, BTreeMap::new());
     for s in [Street::Pref, Street::Flop, Street::Turn] {
         for n in [1usize, 2, 5] {
-            let m = any_decomp(&mut c.rng, s, n);
+            let m = any_decomp(&mut c.rng, s, n, 4096);
             decomp_case(&mut c, m);
         }
     }
@@ -255,22 +372,27 @@ fn main() {
         lookup_case(&mut c, &m);
         let s = [Street::Pref, Street::Flop, Street::Turn][c.rng.below(3) as usize];
         let n = 1 + c.rng.below(5) as usize;
-        let m = any_decomp(&mut c.rng, s, n);
+        let m = any_decomp(&mut c.rng, s, n, 4096);
         decomp_case(&mut c, m);
     }
-    for n in [60usize, big] {
+    // larger tables: more than 1024 / 4096 rows, every row boundary judged by the oracle
+    for n in if deep { vec![60usize, big, 4200] } else { vec![60usize, big] } {
         let rows = any_profile_rows(&mut c.rng, n);
         profile_case(&mut c, &rows);
         let rows: Vec<(u64, u32)> = (0..n).map(|_| (c.rng.next(), any_f32(&mut c.rng))).collect();
         metric_case(&mut c, &rows);
+    }
+    for n in if deep { vec![60usize, big, 9000] } else { vec![60usize, 4200] } {
         let s = STREETS[1 + c.rng.below(3) as usize];
         let mut m = BTreeMap::new();
         while m.len() < n {
             m.insert(any_isomorphism(&mut c.rng, s), any_abstraction(&mut c.rng, Some(s)));
         }
         lookup_case(&mut c, &m);
+    }
+    for (n, nfrom) in if deep { vec![(60usize, 4096u64), (big, 4096), (4200, 64), (9000, 64)] } else { vec![(60usize, 4096u64), (big, 4096), (4200, 64)] } {
         let s = [Street::Pref, Street::Flop, Street::Turn][c.rng.below(3) as usize];
-        let m = any_decomp(&mut c.rng, s, n);
+        let m = any_decomp(&mut c.rng, s, n, nfrom);
         decomp_case(&mut c, m);
     }
     c.scr.clean();
